@@ -9,8 +9,23 @@
 (* timestamp, method, path, query and body hash) and then altered:         *)
 (*   fp      "known" | "known2" (second configured key) | "unknown" |      *)
 (*           "missing" (no header at all)                                  *)
-(*   secret  "ok" | "garbled" (does not decrypt) | "crossed" (encrypted    *)
-(*           for the other configured key than the fingerprint names)      *)
+(*   secret  "ok" | "garbled" (not even base64) | "crossed" (encrypted     *)
+(*           for the other configured key than the fingerprint names) |    *)
+(*           "corrupt" (an honest secret of which one byte of the last     *)
+(*           RSA block was altered in transit: does not decrypt)           *)
+(*   slen    length of the secret's PLAINTEXT ("type=..; key=<base64 HMAC  *)
+(*           key>; time=..", any further attributes) relative to the       *)
+(*           payload B = k-11 bytes of one PKCS#1 v1.5 block of the RSA    *)
+(*           key it is encrypted for (k = modulus length in bytes; the two *)
+(*           configured keys have different sizes).  The scheme            *)
+(*           (lib/codec/rsa.go crypt) is block-wise: the plaintext is cut  *)
+(*           into pieces of B bytes, each encrypted to one block of k      *)
+(*           bytes, the blocks concatenated; decryption cuts into k bytes. *)
+(*           "short" (far below B) | "B-1" | "B" (exactly one full block)  *)
+(*           | "B+1" (one byte in a second block) | "2B" | "2B+1" | "long" *)
+(*           (3B+7: four blocks).  An honest client with a long HMAC key   *)
+(*           or further attributes produces them.  The verdict must not    *)
+(*           depend on it.                                                 *)
 (*   ts      offset of the signed timestamp from the server's clock, in    *)
 (*           seconds relative to the tolerance tol:                        *)
 (*           "now" | "-tol" | "-tol-1" | "+tol" | "+tol+1" | "far" |       *)
@@ -52,14 +67,22 @@ CONSTANTS MaxTamper,   \* how many fields may be altered together
           Servers,     \* server constructions offered (subset of AllServers)
           Layouts,     \* key layouts offered (subset of DOMAIN Conf)
           SideMethods, \* methods and timestamp offsets offered on the layouts with two groups
-          SideOffsets  \* (the full product, and more than one altered field, is driven on layout "one")
+          SideOffsets, \* (the full product, and more than one altered field, is driven on layout "one")
+          SLens        \* secret lengths offered besides "short" (subset of AllLens \ {"short"}), with the
+                       \* methods/offsets of the side product
 
 VARIABLES base, picked, out
 vars == <<base, picked, out>>
 
 Methods == {"GET", "POST", "PUT", "DELETE"}
 Fps     == {"known", "known2", "unknown", "missing"}
-Secrets == {"ok", "garbled", "crossed"}
+Secrets == {"ok", "garbled", "crossed", "corrupt"}
+AllLens == {"short", "B-1", "B", "B+1", "2B", "2B+1", "long"}
+\* number of RSA blocks the encrypted secret of an honest client consists of
+Blocks(sl) == CASE sl \in {"short", "B-1", "B"} -> 1
+                [] sl \in {"B+1", "2B"} -> 2
+                [] sl = "2B+1" -> 3
+                [] sl = "long" -> 4
 Extremes == {"+2^55", "-2^55", "+2^55+h", "+2^55-h", "-2^55+h", "-2^55-h", "+2^56", "-2^56", "+2^62", "-2^62",
              "zero", "maxint", "minint"}
 Offsets == {"now", "-tol", "-tol-1", "+tol", "+tol+1", "far", "garbage"} \cup Extremes
@@ -77,11 +100,11 @@ GroupsOf(l) == DOMAIN Conf[l]
 
 \* the fingerprint name a request carries and the RSA key its secret is encrypted for
 FpName(fp) == IF fp = "known" THEN "fa" ELSE IF fp = "known2" THEN "fb" ELSE "fx"
-EncKey(fp, sec) == IF (fp = "known2") = (sec = "ok") THEN "KB" ELSE "KA"
+EncKey(fp, sec) == IF (fp = "known2") = (sec # "crossed") THEN "KB" ELSE "KA"
 
 \* the header decrypts under a key configured for group g of the layout
 DecryptsIn(r, g) ==
-  /\ r.fp # "missing" /\ r.secret # "garbled"
+  /\ r.fp # "missing" /\ r.secret \notin {"garbled", "corrupt"}
   /\ FpName(r.fp) \in DOMAIN Conf[r.layout][g]
   /\ Conf[r.layout][g][FpName(r.fp)] = EncKey(r.fp, r.secret)
 Decrypts(r) == DecryptsIn(r, r.group)
@@ -103,21 +126,25 @@ Init == base = NoBase /\ picked = FALSE /\ out = [op |-> "init"]
 PickBase ==
   /\ base = NoBase
   /\ \E m \in Methods, fp \in Fps, s \in Secrets, hasbody \in BOOLEAN, via \in Vias, sv \in Servers,
-        l \in Layouts :
+        l \in Layouts, sl \in {"short"} \cup SLens :
      \E g \in GroupsOf(l) :
         /\ (hasbody => m \in {"POST", "PUT", "DELETE"})
         /\ (fp = "missing" => s = "ok")
         /\ (via # "sized" => sv = "default")     \* (keeps the product small; the two are independent)
         /\ (l # "one" => via = "sized" /\ m \in SideMethods)
+        /\ (fp = "missing" => sl = "short")
+        /\ (s = "garbled" => sl = "short")      \* (no ciphertext at all)
+        /\ (sl # "short" => via = "sized" /\ m \in SideMethods)
+        /\ (sl # "short" /\ l # "one" => sv = "default")
         /\ base' = [method |-> m, fp |-> fp, secret |-> s, body |-> hasbody, via |-> via, server |-> sv,
-                    layout |-> l, group |-> g]
+                    layout |-> l, group |-> g, slen |-> sl]
   /\ out' = [op |-> "base"]
   /\ UNCHANGED picked
 
 Pick(r) ==
   /\ ~picked /\ picked' = TRUE
   /\ out' = [op |-> "sig", req |-> r, expect |-> IF Pass(r) THEN "pass" ELSE "deny",
-             foreign |-> Foreign(r), conf |-> Conf[r.layout]]
+             foreign |-> Foreign(r), conf |-> Conf[r.layout], blocks |-> Blocks(r.slen)]
   /\ UNCHANGED base
 
 PickRest ==
@@ -128,9 +155,12 @@ PickRest ==
         \* the extreme timestamps are offered on otherwise perfect requests only
         /\ (ts \in Extremes => tm = {} /\ base.via = "sized" /\ base.secret = "ok" /\ base.fp \in {"known", "known2"})
         /\ (base.layout # "one" => ts \in SideOffsets /\ Cardinality(tm) <= 1)
+        /\ (base.slen # "short" => ts \in SideOffsets /\ Cardinality(tm) <= 1)
+        /\ (base.slen # "short" /\ base.layout # "one" => tm = {})
+        /\ (base.secret = "corrupt" => tm = {} /\ ts \notin Extremes)
         /\ Pick([method |-> base.method, fp |-> base.fp, secret |-> base.secret, ts |-> ts,
                  body |-> base.body, via |-> base.via, server |-> base.server, tamper |-> tm,
-                 layout |-> base.layout, group |-> base.group])
+                 layout |-> base.layout, group |-> base.group, slen |-> base.slen])
 
 Next == PickBase \/ PickRest
 
@@ -158,6 +188,10 @@ OwnGroupOnly ==
 \* never enters the verdict
 TransportIrrelevant ==
   picked => \A v \in Vias : Pass([out.req EXCEPT !.via = v]) = (out.expect = "pass")
+\* the length of the secret (how many RSA blocks an honest client needed) never enters the verdict:
+\* in particular an untouched, timely request with a secret of several blocks is admitted
+LengthIrrelevant ==
+  picked => \A sl \in AllLens : Pass([out.req EXCEPT !.slen = sl]) = (out.expect = "pass")
 \* the way the server builds its middleware chain never enters the verdict
 ServerIrrelevant ==
   picked => \A sv \in AllServers : Pass([out.req EXCEPT !.server = sv]) = (out.expect = "pass")
